@@ -191,7 +191,7 @@ fn kd7_zlib_starved_finish() {
 // ---------------------------------------------------------------------------------------------------------------
 const LBG: usize = 4; // pending = 16 bytes, smaller than a header with fields
 
-fn gzip_header_instance(first_space: u32) {
+fn gzip_header_instance(first_space: u32, has_extra: bool, has_name: bool, has_comment: bool) {
     let mut w = [0u8; 2 << WB7];
     let mut p = [0u16; 1 << WB7];
     let mut h = [0u16; HASH_SIZE];
@@ -215,19 +215,16 @@ fn gzip_header_instance(first_space: u32) {
     gz.text = kani::any();
     gz.time = kani::any::<u32>() as _;
     gz.os = kani::any::<u8>() as i32;
-    gz.hcrc = if kani::any() { 1 } else { 0 };
-    let has_extra: bool = kani::any();
+    gz.hcrc = kani::any(); // any i32: zlib treats every non-zero value as "write a header CRC"
     let xlen: u32 = kani::any();
     kani::assume(xlen <= 6);
     if has_extra {
         gz.extra = extra.as_mut_ptr();
         gz.extra_len = xlen;
     }
-    let has_name: bool = kani::any();
     if has_name {
         gz.name = name.as_mut_ptr();
     }
-    let has_comment: bool = kani::any();
     if has_comment {
         gz.comment = comment.as_mut_ptr();
     }
@@ -239,12 +236,14 @@ fn gzip_header_instance(first_space: u32) {
     stream.next_in = input.as_ptr() as *mut u8;
     stream.avail_in = 2;
     stream.next_out = out.as_mut_ptr();
-    // the first call gets `first_space` bytes of room, later calls 6 bytes each (so the header drains over several calls)
+    // deflateBound for this stream, taken before compressing: its wrapper part must equal what deflate() really writes
+    let b = bound(Some(&mut stream), 2);
+    // the first call gets `first_space` bytes of room, the following ones 44 (enough for everything that is left)
     stream.avail_out = first_space;
     let mut rc = deflate(&mut stream, DeflateFlush::Finish);
     let mut calls = 1;
-    while calls < 9 && rc == ReturnCode::Ok {
-        stream.avail_out = 6;
+    while calls < 3 && rc == ReturnCode::Ok {
+        stream.avail_out = 44;
         rc = deflate(&mut stream, DeflateFlush::Finish);
         calls += 1;
     }
@@ -310,20 +309,23 @@ fn gzip_header_instance(first_space: u32) {
     }
     // trailer: CRC-32 of no data (the stub emitted none; the folding state starts at 0) and ISIZE = 2
     assert!(produced == n + 8);
+    // deflateBound's wrapper accounting (w_bits 9 != 15: conservative formula + wrap_len) matches the bytes really written
+    let base = if level == 0 { 2 + 7 } else { 2 + ((2 + 7) >> 3) + ((2 + 63) >> 6) + 5 };
+    assert!(b == base + produced, "deflateBound counts exactly the wrapper bytes deflate() writes for this header");
     let j: usize = kani::any();
     kani::assume(j < n);
     assert!(out[j] == e[j], "gzip header bytes");
     assert!(out[n] == 0 && out[n + 1] == 0 && out[n + 2] == 0 && out[n + 3] == 0, "CRC-32 of the empty data");
     assert!(out[n + 4] == 2 && out[n + 5] == 0 && out[n + 6] == 0 && out[n + 7] == 0, "ISIZE");
-    kani::cover!(has_extra && has_name && has_comment && gz.hcrc != 0 && xlen == 6 && name[0] != 0 && name[1] != 0 && name[2] != 0 && name[3] != 0 && name[4] != 0 && name[5] != 0 && name[6] != 0, "longest header");
-    kani::cover!(!has_extra && has_name && name[0] != 0 && name[1] != 0 && name[2] != 0 && name[3] != 0 && name[4] != 0 && name[5] != 0 && name[6] != 0, "name larger than the room left in the pending buffer");
-    kani::cover!(!has_extra && !has_name && !has_comment && gz.hcrc == 0);
+    kani::cover!(!has_extra || xlen == 6, "longest extra field");
+    kani::cover!(!has_name || (name[0] != 0 && name[1] != 0 && name[2] != 0 && name[3] != 0 && name[4] != 0 && name[5] != 0 && name[6] != 0), "longest name");
+    kani::cover!(gz.hcrc < 0, "negative hcrc still means: write the header CRC");
     core::mem::forget(stream);
     core::mem::forget(state);
 }
 
 macro_rules! gzip_header_harness {
-    ($name:ident, $space:expr) => {
+    ($name:ident, $space:expr, $e:expr, $n:expr, $c:expr) => {
         #[kani::proof]
         #[kani::unwind(10)]
         #[kani::stub(core::fmt::write, stub_fmt_write)]
@@ -332,12 +334,163 @@ macro_rules! gzip_header_harness {
         #[kani::stub(crate::deflate::algorithm::run, stub_run_consume_all)]
         #[kani::stub(<[u16]>::fill, stub_fill_zero)]
         #[kani::stub(crate::crc32::crc32, stub_crc_model)]
+        #[kani::stub(core::ffi::CStr::from_ptr, stub_cstr_from_ptr)]
         fn $name() {
-            gzip_header_instance($space);
+            gzip_header_instance($space, $e, $n, $c);
         }
     };
 }
-gzip_header_harness!(kd7_gzip_header_space1, 1);
-gzip_header_harness!(kd7_gzip_header_space5, 5);
-gzip_header_harness!(kd7_gzip_header_space13, 13);
-gzip_header_harness!(kd7_gzip_header_space40, 40);
+gzip_header_harness!(kd7_gzip_header_none_s1, 1, false, false, false);
+gzip_header_harness!(kd7_gzip_header_extra_s1, 1, true, false, false);
+gzip_header_harness!(kd7_gzip_header_extra_s13, 13, true, false, false);
+gzip_header_harness!(kd7_gzip_header_name_s1, 1, false, true, false);
+gzip_header_harness!(kd7_gzip_header_name_s11, 11, false, true, false);
+gzip_header_harness!(kd7_gzip_header_all_s13, 13, true, true, true);
+
+// ---------------------------------------------------------------------------------------------------------------
+// flush_bytes (the routine that moves a gzip header field through a pending buffer that may be smaller than the
+// field): unit harness.  Whatever the fill level of the pending buffer, the field length and the output room, the
+// bytes that reach output + pending are the old pending bytes followed by a prefix of the field, and `gzindex`
+// records exactly how much of the field has been taken so that the next call can resume (C20, C06).
+// ---------------------------------------------------------------------------------------------------------------
+#[kani::proof]
+#[kani::unwind(12)]
+#[kani::stub(core::fmt::write, stub_fmt_write)]
+#[kani::stub(core::panicking::panic_nounwind, stub_pn)]
+#[kani::stub(core::panicking::panic_nounwind_fmt, stub_pnf)]
+#[kani::stub(crate::crc32::crc32, stub_crc_nondet)]
+fn kd7_flush_bytes_unit() {
+    const LBU: usize = 2; // pending = 8 bytes
+    let mut w = [0u8; 2 << WB7];
+    let mut p = [0u16; 1 << WB7];
+    let mut h = [0u16; HASH_SIZE];
+    let mut pe = [MaybeUninit::new(0u8); 4 * LBU];
+    let mut sy = [0u8; 3 * LBU];
+    let mut state = typed_state(&mut w, &mut p, &mut h, &mut pe, &mut sy, WB7, LBU, 6, 2, Strategy::Default);
+    state.status = Status::Extra;
+    let old: [u8; 8] = kani::any();
+    let np: usize = kani::any();
+    kani::assume(np <= 8);
+    state.bit_writer.pending.extend(&old[..np]);
+    let g0: usize = kani::any();
+    kani::assume(g0 <= 100);
+    state.gzindex = g0;
+    let mut stream = typed_stream(unsafe { &mut *(&mut state as *mut State) });
+    let field: [u8; 12] = kani::any();
+    let fl: usize = kani::any();
+    kani::assume(fl <= 12);
+    let init: [u8; 24] = kani::any();
+    let mut out = init;
+    let room: u32 = kani::any();
+    kani::assume(room <= 22);
+    stream.next_out = out.as_mut_ptr();
+    stream.avail_out = room;
+    let r = flush_bytes(&mut stream, &field[..fl]);
+    let produced = (room - stream.avail_out) as usize;
+    let pend = stream.state.bit_writer.pending.pending();
+    let in_pending = pend.len();
+    let moved = produced + in_pending; // bytes now in output or pending
+    assert!(moved >= np && moved - np <= fl);
+    let taken = moved - np; // how much of the field has been taken
+    // the byte at stream position j (output first, then pending)
+    let j: usize = kani::any();
+    kani::assume(j < moved);
+    let got = if j < produced { out[j] } else { pend[j - produced] };
+    let want = if j < np { old[j] } else { field[j - np] };
+    assert!(got == want, "old pending bytes, then the field, in order, nothing repeated or dropped");
+    let k: usize = kani::any();
+    kani::assume(k >= produced && k < 24);
+    assert!(out[k] == init[k]);
+    match r {
+        ControlFlow::Continue(()) => {
+            assert!(taken == fl && stream.state.gzindex == 0);
+        }
+        ControlFlow::Break(rc) => {
+            // output is full with bytes still pending: resume later from exactly where we stopped
+            assert!(rc == ReturnCode::Ok && stream.avail_out == 0 && in_pending > 0);
+            assert!(stream.state.last_flush == -1);
+            assert!(stream.state.gzindex == g0 + taken, "gzindex records how much of the field was taken");
+        }
+    }
+    kani::cover!(matches!(r, ControlFlow::Break(_)) && taken > 0);
+    kani::cover!(matches!(r, ControlFlow::Continue(())) && fl == 12 && produced > 8);
+    core::mem::forget(stream);
+    core::mem::forget(state);
+}
+
+/// A gzip header field whose emission was interrupted (pending buffer full, output full) is resumed from `gzindex`,
+/// not from its beginning: extra, name and comment.
+fn gzip_resume_instance(which: u8) {
+    const LBR: usize = 8; // pending = 32 bytes: ample here
+    let mut w = [0u8; 2 << WB7];
+    let mut p = [0u16; 1 << WB7];
+    let mut h = [0u16; HASH_SIZE];
+    let mut pe = [MaybeUninit::new(0u8); 4 * LBR];
+    let mut sy = [0u8; 3 * LBR];
+    let mut state = typed_state(&mut w, &mut p, &mut h, &mut pe, &mut sy, WB7, LBR, 6, 2, Strategy::Default);
+    state.window_size = 2 << WB7;
+    state.last_flush = -1;
+    let mut f: [u8; 6] = kani::any();
+    kani::assume(f[0] != 0 && f[1] != 0 && f[2] != 0 && f[3] != 0 && f[4] != 0);
+    f[5] = 0;
+    let mut gz = gz_header::default();
+    let k: usize = kani::any(); // bytes of the field already emitted by earlier calls
+    let flen = if which == 0 { 5 } else { 6 }; // extra: 5 bytes; strings: 5 chars + NUL
+    kani::assume(k < flen);
+    match which {
+        0 => {
+            gz.extra = f.as_mut_ptr();
+            gz.extra_len = 5;
+            state.status = Status::Extra;
+        }
+        1 => {
+            gz.name = f.as_mut_ptr();
+            state.status = Status::Name;
+        }
+        _ => {
+            gz.comment = f.as_mut_ptr();
+            state.status = Status::Comment;
+        }
+    }
+    state.gzindex = k;
+    state.gzhead = Some(unsafe { &mut *(&mut gz as *mut gz_header) });
+    let mut stream = typed_stream(unsafe { &mut *(&mut state as *mut State) });
+    let input = [9u8];
+    let mut out = [0u8; 24];
+    stream.next_in = input.as_ptr() as *mut u8;
+    stream.avail_in = 1;
+    stream.next_out = out.as_mut_ptr();
+    stream.avail_out = 24;
+    let rc = deflate(&mut stream, DeflateFlush::Finish);
+    assert!(rc == ReturnCode::StreamEnd);
+    let produced = 24 - stream.avail_out as usize;
+    // the rest of the field, then the trailer (CRC-32 of no data, ISIZE = 1)
+    assert!(produced == (flen - k) + 8, "only the part of the field that was still outstanding is written");
+    let j: usize = kani::any();
+    kani::assume(j < flen - k);
+    assert!(out[j] == f[k + j]);
+    kani::cover!(k == 3);
+    kani::cover!(k == 0);
+    core::mem::forget(stream);
+    core::mem::forget(state);
+}
+
+macro_rules! gzip_resume_harness {
+    ($name:ident, $which:expr) => {
+        #[kani::proof]
+        #[kani::unwind(12)]
+        #[kani::stub(core::fmt::write, stub_fmt_write)]
+        #[kani::stub(core::panicking::panic_nounwind, stub_pn)]
+        #[kani::stub(core::panicking::panic_nounwind_fmt, stub_pnf)]
+        #[kani::stub(crate::deflate::algorithm::run, stub_run_consume_all)]
+        #[kani::stub(<[u16]>::fill, stub_fill_zero)]
+        #[kani::stub(crate::crc32::crc32, stub_crc_nondet)]
+        #[kani::stub(core::ffi::CStr::from_ptr, stub_cstr_from_ptr)]
+        fn $name() {
+            gzip_resume_instance($which);
+        }
+    };
+}
+gzip_resume_harness!(kd7_gzip_resume_extra, 0);
+gzip_resume_harness!(kd7_gzip_resume_name, 1);
+gzip_resume_harness!(kd7_gzip_resume_comment, 2);
